@@ -37,7 +37,13 @@ TABLE_PREFIXES = ['k', 'ki', 'K', 'Ki', 'M', 'Mi', 'G', 'Gi', 'T', 'Ti', 'P', 'P
                   'Z', 'Zi', 'Y', 'Yi', 'R', 'Ri', 'Q', 'Qi']
 PREFIXES = [''] + TABLE_PREFIXES + ['m', 'Km', 'i', 'KI', 'D', 'Di', 'kI', 'Mii', 'g']
 UNITS = ['b', 'bit', 'B', 'bits', '', 'Byte', 'BIT', 'bB']
-SYSTEMS = ['IEC', 'SI', 'mixed', 'bogus', None, 'iec']
+class _StrSub(str):
+    pass
+
+
+# equal to the documented names but not the same (interned) objects
+SYSTEMS = ['IEC', 'SI', 'mixed', 'bogus', None, 'iec', 'MIXED'.lower(), _StrSub('IEC'),
+           ''.join(['S', 'I'])]
 EXP = {'k': 1, 'K': 1, 'M': 2, 'G': 3, 'T': 4, 'P': 5, 'E': 6, 'Z': 7, 'Y': 8, 'R': 9, 'Q': 10}
 
 ADMITTED = {
@@ -221,6 +227,24 @@ def _qemu_case(vals, acc):
                  {'qemu': out, 'attr': attr, 'want': want})
 
 
+def _qemu_tail_wins(vals, acc):
+    """An explicit '(N bytes)' figure takes precedence whatever the rounded figure looks like."""
+    from oslo_utils.imageutils import QemuImgInfo
+    (label, attr), figure = vals
+    out = 'image: x.img\n%s: %s (4096 bytes)\n' % (label, figure)
+    with warnings.catch_warnings():
+        warnings.simplefilter('ignore')
+        try:
+            got = getattr(QemuImgInfo(out), attr)
+        except Exception as e:
+            got = ('raises', type(e).__name__)
+    acc.nontrivial(out)
+    if got != 4096:
+        acc.fail('qemu:tail-precedence', {'line': '%s: %s (4096 bytes)' % (label, figure),
+                                          'got': repr(got), 'want': 4096},
+                 {'qemu': out, 'attr': attr, 'want': 4096})
+
+
 def run(ctx):
     rep = ctx.new_report()
     mags = list(MAGS)
@@ -230,6 +254,8 @@ def run(ctx):
         mags += ['%d.%d' % (ctx.seed + 2, ctx.seed % 10)]
     E.run(rep, 'string_to_bytes', [SIGNS, mags, PREFIXES, UNITS, SYSTEMS], _case)
     E.run(rep, 'qemu-human', [QEMU_FIELDS, QEMU_NUMS, QEMU_UNITS, QEMU_TAILS], _qemu_case)
+    E.run(rep, 'qemu-tail-precedence', [QEMU_FIELDS, ['0.5', '1.0 XiB', '10g', '1.0 Gi', '4K', '4.0K',
+                                                     '1e+400 TiB', '3.9 KiB', '4096']], _qemu_tail_wins)
     # 'None' / 'unavailable' sizes and the JSON form pass numbers through
     from oslo_utils.imageutils import QemuImgInfo
     with warnings.catch_warnings():
@@ -249,7 +275,7 @@ def run(ctx):
         'the unit system (value compared with exact arithmetic); rejected texts '
         'are counted separately. QemuImgInfo: fields x numbers x units x tails.')
     rep.notes['bounds'] = {'signs': SIGNS, 'magnitudes': mags, 'prefixes': PREFIXES,
-                           'units': UNITS, 'systems': [repr(s) for s in SYSTEMS],
+                           'units': UNITS, 'systems': [repr(s) + ('' if type(s) in (str, type(None)) else ' (str subclass)') for s in SYSTEMS],
                            'qemu_numbers': QEMU_NUMS, 'qemu_units': QEMU_UNITS}
     return rep
 
